@@ -1,0 +1,241 @@
+//go:build verif
+
+package rfc1035label
+
+// Contracts and specification functions for the deductive verification in /verif (build tag "verif").
+// This file adds declarations only; it changes no function of the package.
+//
+// Specification functions are pure Go (so they can be executed by replays) and are translated to SMT by /verif/engine.
+// They are an independent reading of RFC 1035 section 3.1 (length octets), section 4.1.4 (compression pointers, one
+// level) and RFC 4704 section 4.2 (a trailing partial name), written as a recursion over the position so that loop
+// invariants can be stated in "remaining work" form.
+
+// specJoinDot appends one label to a partially read name.
+func specJoinDot(cur string, chunk string) string {
+	if cur == "" {
+		return chunk
+	}
+	return cur + "." + chunk
+}
+
+// specLabelsStatus: 0 = the RFCs assign names to b read from pos; 1 = malformed (a label or pointer overruns the
+// buffer); 2 = outside what the property pins down (reserved length octets 0x40..0xBF, pointer to or past the end,
+// a second level of pointers, a pointed-to name running into the end of the buffer).
+
+//@ contract specLabelsStatus
+//@   decreases specLabelsM1(len(b), pos, inPtr, ret), specLabelsM2(len(b), pos, inPtr)
+func specLabelsStatus(b string, pos int, inPtr bool, ret int) int {
+	if pos < 0 {
+		return 2
+	}
+	if pos >= len(b) {
+		if inPtr {
+			return 2
+		}
+		return 0
+	}
+	l := int(b[pos])
+	if l == 0 {
+		if inPtr {
+			return specLabelsStatus(b, ret, false, ret)
+		}
+		return specLabelsStatus(b, pos+1, false, ret)
+	}
+	if l >= 192 {
+		if inPtr {
+			return 2
+		}
+		if pos+2 > len(b) {
+			return 1
+		}
+		if (l-192)*256+int(b[pos+1]) >= len(b) {
+			return 2
+		}
+		return specLabelsStatus(b, (l-192)*256+int(b[pos+1]), true, pos+2)
+	}
+	if l >= 64 {
+		return 2
+	}
+	if pos+1+l > len(b) {
+		return 1
+	}
+	return specLabelsStatus(b, pos+1+l, inPtr, ret)
+}
+
+// specLabels: the list of names, accumulated in acc; cur is the name being read.
+
+//@ contract specLabels
+//@   decreases specLabelsM1(len(b), pos, inPtr, ret), specLabelsM2(len(b), pos, inPtr)
+func specLabels(b string, pos int, cur string, inPtr bool, ret int, acc []string) []string {
+	if pos < 0 {
+		return acc
+	}
+	if pos >= len(b) {
+		if cur != "" {
+			return append(acc, cur)
+		}
+		return acc
+	}
+	l := int(b[pos])
+	if l == 0 {
+		if inPtr {
+			return specLabels(b, ret, "", false, ret, append(acc, cur))
+		}
+		return specLabels(b, pos+1, "", false, ret, append(acc, cur))
+	}
+	if l >= 192 {
+		if inPtr || pos+2 > len(b) {
+			return acc
+		}
+		return specLabels(b, (l-192)*256+int(b[pos+1]), cur, true, pos+2, acc)
+	}
+	if pos+1+l > len(b) {
+		return acc
+	}
+	return specLabels(b, pos+1+l, specJoinDot(cur, b[pos+1:pos+1+l]), inPtr, ret, acc)
+}
+
+// termination measure of the decoder (lexicographic): the position to which the main sequence will return only
+// moves forward; inside a pointed-to name the position moves forward.
+func specLabelsM1(n int, pos int, inPtr bool, ret int) int {
+	if inPtr {
+		if ret > n {
+			return 0
+		}
+		return n + 1 - ret
+	}
+	if pos > n {
+		return 0
+	}
+	return n + 1 - pos
+}
+
+func specLabelsM2(n int, pos int, inPtr bool) int {
+	if !inPtr {
+		return 0
+	}
+	if pos > n {
+		return 1
+	}
+	return n - pos + 2
+}
+
+//@ contract labelsFromBytes
+//@   let b0 = string(buf)
+//@   ensures[status-ok-accepted] specLabelsStatus(b0, 0, false, 0) == 0 ==> err == nil
+//@   ensures[status-malformed-rejected] specLabelsStatus(b0, 0, false, 0) == 1 ==> err != nil
+//@   ensures[names] err == nil && specLabelsStatus(b0, 0, false, 0) == 0 ==> seq(result0) == specLabels(b0, 0, "", false, 0, []string{})
+//@   ensures[fresh] fresh(result0)
+//@   loop 0 invariant[pos] pos >= 0 && oldPos >= 0
+//@   loop 0 invariant[ret] handlingPointer ==> oldPos <= len(buf)
+//@   loop 0 invariant[labels] allocated(labels) && fresh(labels) && off(labels) >= 0
+//@   loop 0 invariant[status] specLabelsStatus(b0, 0, false, 0) == 2 || specLabelsStatus(b0, 0, false, 0) == specLabelsStatus(b0, pos, handlingPointer, oldPos)
+//@   loop 0 invariant[names] specLabelsStatus(b0, 0, false, 0) == 2 || specLabels(b0, 0, "", false, 0, []string{}) == specLabels(b0, pos, label, handlingPointer, oldPos, seq(labels))
+//@   loop 0 decreases specLabelsM1(len(buf), pos, handlingPointer, oldPos), specLabelsM2(len(buf), pos, handlingPointer)
+
+// ---------- encoding ----------
+
+// specByte is the one-octet string with value n mod 256 (the engine knows this function by name).
+func specByte(n int) string { return string([]byte{byte(n)}) }
+
+// specSplitDot(s) is the list of dot-separated parts of s (what strings.Split(s, ".") returns); cur is the part
+// being read from position start, i the scan position.
+//@ contract specSplitFrom
+//@   decreases len(s) - i
+func specSplitFrom(s string, start int, i int, acc []string) []string {
+	if i < start || start < 0 || i > len(s) {
+		return acc
+	}
+	if i >= len(s) {
+		return append(acc, s[start:])
+	}
+	if s[i] == '.' {
+		return specSplitFrom(s, i+1, i+1, append(acc, s[start:i]))
+	}
+	return specSplitFrom(s, start, i+1, acc)
+}
+
+func specSplitDot(s string) []string { return specSplitFrom(s, 0, 0, []string{}) }
+
+// specEncParts: the RFC 1035 3.1 encoding of the labels parts[k:], each a length octet followed by the label,
+// terminated by the zero-length root label.
+//@ contract specEncParts
+//@   decreases len(parts) - k
+func specEncParts(parts []string, k int) string {
+	if k < 0 || k >= len(parts) {
+		return "\x00"
+	}
+	return specByte(len(parts[k])) + parts[k] + specEncParts(parts, k+1)
+}
+
+// specEncName: the encoding of one name; the empty name is the root.
+func specEncName(name string) string {
+	if name == "" {
+		return "\x00"
+	}
+	return specEncParts(specSplitDot(name), 0)
+}
+
+// specEncNames: the concatenation of the encodings of names[k:].
+//@ contract specEncNames
+//@   decreases len(names) - k
+func specEncNames(names []string, k int) string {
+	if k < 0 || k >= len(names) {
+		return ""
+	}
+	return specEncName(names[k]) + specEncNames(names, k+1)
+}
+
+// assumed contract of the standard library (sampled against the implementation in thorough runs)
+//@ contract strings.Split
+//@   trusted
+//@   ensures sep == "." ==> seq(result) == specSplitDot(s)
+//@   ensures fresh(result)
+
+//@ contract labelToBytes
+//@   ensures[encoding] string(result) == specEncName(label)
+//@   ensures[fresh] fresh(result)
+//@   loop 0 invariant[fresh] fresh(encodedLabel) && (encodedLabel == nil || allocated(encodedLabel)) && off(encodedLabel) >= 0
+//@   loop 0 invariant[work] string(encodedLabel) + specEncParts(seq(rangeval), rangeindex+1) == specEncParts(seq(rangeval), 0)
+
+//@ contract labelsToBytes
+//@   ensures[encoding] string(result) == specEncNames(seq(labels), 0)
+//@   ensures[fresh] fresh(result)
+//@   loop 0 invariant[fresh] fresh(encodedLabels) && (encodedLabels == nil || allocated(encodedLabels)) && off(encodedLabels) >= 0
+//@   loop 0 invariant[work] string(encodedLabels) + specEncNames(seq(labels), rangeindex+1) == specEncNames(seq(labels), 0)
+
+//@ contract same
+//@   ensures result == (seq(a) == seq(b))
+//@   loop 0 invariant len(a) == len(b)
+//@   loop 0 invariant[prefix] forall j int :: {seq(a)[j]} 0 <= j && j < i ==> seq(a)[j] == seq(b)[j]
+
+// (*Labels).ToBytes: a label set parsed from bytes re-encodes to exactly those bytes while its names are the ones
+// the bytes decode to; otherwise (names changed, or never parsed) it is the fresh RFC 1035 encoding of the names.
+//@ contract (*Labels).ToBytes
+//@   let st0 = specLabelsStatus(string(l.original), 0, false, 0)
+//@   let parsed0 = specLabels(string(l.original), 0, "", false, 0, []string{})
+//@   ensures[unmodified] l.original != nil && st0 == 0 && seq(l.Labels) == parsed0 ==> sameSlice(result, l.original)
+//@   ensures[modified] st0 == 0 && !(seq(l.Labels) == parsed0) ==> string(result) == specEncNames(seq(l.Labels), 0) && fresh(result)
+//@   ensures[never-parsed] l.original == nil ==> string(result) == specEncNames(seq(l.Labels), 0)
+
+//@ contract (*Labels).Length
+//@   let st0 = specLabelsStatus(string(l.original), 0, false, 0)
+//@   let parsed0 = specLabels(string(l.original), 0, "", false, 0, []string{})
+//@   ensures l.original != nil && st0 == 0 && seq(l.Labels) == parsed0 ==> result == len(l.original)
+
+//@ contract (*Labels).FromBytes
+//@   let b0 = string(data)
+//@   modifies l
+//@   ensures[status-ok-accepted] specLabelsStatus(b0, 0, false, 0) == 0 ==> err == nil
+//@   ensures[status-malformed-rejected] specLabelsStatus(b0, 0, false, 0) == 1 ==> err != nil
+//@   ensures[names] err == nil && specLabelsStatus(b0, 0, false, 0) == 0 ==> seq(l.Labels) == specLabels(b0, 0, "", false, 0, []string{})
+//@   ensures[original] err == nil ==> string(l.original) == b0
+//@   ensures[unchanged-on-error] err != nil ==> unchanged(l)
+
+//@ contract FromBytes
+//@   let b0 = string(data)
+//@   ensures[status-ok-accepted] specLabelsStatus(b0, 0, false, 0) == 0 ==> err == nil
+//@   ensures[status-malformed-rejected] specLabelsStatus(b0, 0, false, 0) == 1 ==> err != nil
+//@   ensures[result] (err == nil) == (result0 != nil)
+//@   ensures[names] err == nil && specLabelsStatus(b0, 0, false, 0) == 0 ==> seq(result0.Labels) == specLabels(b0, 0, "", false, 0, []string{})
+//@   ensures[original] err == nil ==> string(result0.original) == b0
